@@ -183,7 +183,10 @@ def _wide_program(rng, tier, run):
         n_live += 1
     probes = [''.join(rng.choice(WIDE_PROBE_ALPHABET) for _ in range(rng.randint(3, 9))) for _ in range(3)]
     probes += ['~~~~~``&`', u'<<->><<-<<\u00e4~', '&~&~&~&']
-    return {'batch': 'wide', 'wide': True, 'ops': ops, 'probes': probes}
+    prog = {'batch': 'wide', 'wide': True, 'ops': ops, 'probes': probes}
+    if rng.random() < 0.5:
+        prog['real_specs'] = True
+    return prog
 
 
 def generate(rng, tier, run):
@@ -272,7 +275,10 @@ def generate(rng, tier, run):
     for _ in range(3):
         probes.append(''.join(rng.choice(PROBE_ALPHABET) for _ in range(rng.randint(2, 7))))
     probes.append('~~~~``&`')
-    return {'batch': batch, 'ops': ops, 'probes': probes}
+    prog = {'batch': batch, 'ops': ops, 'probes': probes}
+    if rng.random() < 0.4:
+        prog['real_specs'] = True
+    return prog
 
 
 # --------------------------------------------------------------------------
@@ -476,8 +482,35 @@ class Violation(Exception):
         self.info = info
 
 
+REAL = {'on': False}      # per program: real MacroSpec / EnvironmentSpec / SpecialsSpec objects instead of stubs
+
+
+def _one_spec(kind, name, tag):
+    if not REAL['on']:
+        sp = Spec(kind, name, tag)
+        if sum(ord(c) for c in tag) % 6 == 0:
+            # an object that also carries the name attributes of the other kinds (the public base
+            # class of the spec classes accepts all three): it is filed under the kind it is given as
+            for k2, decoy in (('macros', 'b'), ('environments', 'f'), ('specials', '~~')):
+                if k2 != kind:
+                    setattr(sp, NAME_ATTR[k2], decoy)
+        return sp
+    from pylatexenc import macrospec
+    h = sum(ord(c) for c in tag)
+    if kind == 'macros':
+        sp = [lambda: macrospec.MacroSpec(name, '{'), lambda: macrospec.MacroSpec(name, ['[', '{']),
+              lambda: macrospec.std_macro(name, True, 1), lambda: macrospec.MacroSpec(name)][h % 4]()
+    elif kind == 'environments':
+        sp = [lambda: macrospec.EnvironmentSpec(name, ''), lambda: macrospec.std_environment(name, '[{'),
+              lambda: macrospec.EnvironmentSpec(name, ['{'], is_math_mode=True)][h % 3]()
+    else:
+        sp = [lambda: macrospec.SpecialsSpec(name), lambda: macrospec.SpecialsSpec(name, ['{'])][h % 2]()
+    sp.tag = tag
+    return sp
+
+
 def _mk_specs(kind, names, opi, tagsuffix=''):
-    return [Spec(kind, n, '%s:%s#%d%s' % (kind[0], n, opi, tagsuffix)) for n in names]
+    return [_one_spec(kind, n, '%s:%s#%d%s' % (kind[0], n, opi, tagsuffix)) for n in names]
 
 
 def _resolve(ref, names):
@@ -517,6 +550,9 @@ def execute(program):
     stop = False
 
     U = universe(program)
+    REAL['on'] = bool(program.get('real_specs'))
+    if REAL['on']:
+        stats.inc('probe:real-spec-objects')
     made = {}           # (kind, name) -> the spec object created last for it (wide batch: objects registered twice)
     prev_after = None
 
@@ -631,7 +667,7 @@ def execute(program):
                 # ---------------------------------------------------- set_unknown
                 elif kind == 'set_unknown':
                     _, _, which, present = op
-                    spec = Spec(which, '<unknown>', 'u:%s#%d' % (which[0], opi)) if present else None
+                    spec = _one_spec(which, '' if REAL['on'] else '<unknown>', 'u:%s#%d' % (which[0], opi)) if present else None
                     setter = {'macros': db.set_unknown_macro_spec,
                               'environments': db.set_unknown_environment_spec,
                               'specials': db.set_unknown_specials_spec}[which]
@@ -732,7 +768,7 @@ def execute(program):
                         kw = {}
                         unk_specs = {}
                         for k, present in sorted(unk.items()):
-                            unk_specs[k] = Spec(k, '<unknown>', 'u:%s#%d' % (k[0], opi)) \
+                            unk_specs[k] = _one_spec(k, '' if REAL['on'] else '<unknown>', 'u:%s#%d' % (k[0], opi)) \
                                 if present else None
                             kw['unknown_%s_spec' % {'macros': 'macro', 'environments': 'environment',
                                                     'specials': 'specials'}[k]] = unk_specs[k]
@@ -980,7 +1016,7 @@ COMPONENTS = {
 }
 
 TIERS = {
-    'quick': {'runs': 40000, 'wall_cap': 240},
+    'quick': {'runs': 34000, 'wall_cap': 300},
     'thorough': {'runs': 600000, 'wall_cap': 3000},
 }
 EXPECTED_PROBES = ['insert-in-the-middle', 'auto-category-added', 'filter-of-derived', 'extend-of-derived',
